@@ -90,3 +90,48 @@ Proof.
         split; [exact HB'|]. cbn [height]. split; [|discriminate].
         destruct (Z_le_gt_dec (height r' - height l) 1); [rewrite Hex by lia; lia|lia].
 Qed.
+
+(** ** remove keeps the AVL balance *)
+From C33 Require Import C01.ProofsRemove.
+
+Theorem remove_balanced : forall t k res,
+  ordered t -> sized t -> balanced t -> remove t k = Some res ->
+  match rm_node res with
+  | Some t' => balanced t' /\ height t - 1 <= height t' <= height t
+  | None => True
+  end.
+Proof.
+  induction t as [lk lv|nk h s l IHl r IHr]; intros k res HO HS HB E.
+  - cbn [remove] in E. destruct (beq k lk); inversion E; subst; simpl; auto. split; auto. lia.
+  - pose proof HO as [HOl [HOr _]]. pose proof HS as [HSl [HSr [Hh Hs]]].
+    pose proof HB as [HBl [HBr HD]].
+    pose proof (sized_height_nonneg l HSl). pose proof (sized_height_nonneg r HSr).
+    cbn [remove] in E. destruct (blt k nk).
+    + destruct (remove_inv l k HOl HSl) as [rl [E1 OK]]. rewrite E1 in E.
+      specialize (IHl k rl HOl HSl HBl E1). unfold rm_ok in OK.
+      destruct (rm_removed rl); cbn [negb] in E.
+      * destruct OK as [_ [_ ND]]. destruct (rm_node rl) as [l'|].
+        -- destruct ND as [_ [HSl' _]]. destruct IHl as [HBl' Hb].
+           destruct (balance (calc_hs (Node nk h s l' r))) as [t2|] eqn:E2; [|discriminate].
+           inversion E; subst res; clear E. cbn [rm_node].
+           destruct (balance_avl nk h s l' r t2 HSl' HSr HBl' HBr) as [HB' [Hb' Hex]]; [lia|exact E2|].
+           split; [exact HB'|]. cbn [height].
+           destruct (Z_le_gt_dec (height r - height l') 1); [rewrite Hex by lia; lia|lia].
+        -- destruct ND as [v0 [EL _]]. subst l. inversion E; subst res; clear E. cbn [rm_node].
+           split; [exact HBr|]. cbn [height] in *. lia.
+      * inversion E; subst res; clear E. cbn [rm_node]. split; [exact HB|]. lia.
+    + destruct (remove_inv r k HOr HSr) as [rr [E1 OK]]. rewrite E1 in E.
+      specialize (IHr k rr HOr HSr HBr E1). unfold rm_ok in OK.
+      destruct (rm_removed rr); cbn [negb] in E.
+      * destruct OK as [_ [_ ND]]. destruct (rm_node rr) as [r'|].
+        -- destruct ND as [_ [HSr' _]]. destruct IHr as [HBr' Hb].
+           match type of E with context [balance ?x] => destruct (balance x) as [t2|] eqn:E2; [|discriminate] end.
+           inversion E; subst res; clear E. cbn [rm_node].
+           match type of E2 with balance (calc_hs (Node ?kk _ _ _ _)) = _ =>
+             destruct (balance_avl kk h s l r' t2 HSl HSr' HBl HBr') as [HB' [Hb' Hex]]; [lia|exact E2|] end.
+           split; [exact HB'|]. cbn [height].
+           destruct (Z_le_gt_dec (height l - height r') 1); [rewrite Hex by lia; lia|lia].
+        -- destruct ND as [v0 [EL _]]. subst r. inversion E; subst res; clear E. cbn [rm_node].
+           split; [exact HBl|]. cbn [height] in *. lia.
+      * inversion E; subst res; clear E. cbn [rm_node]. split; [exact HB|]. lia.
+Qed.
